@@ -11,104 +11,7 @@ import time
 REPO = "/repo/src/cobald/"
 ROOT = os.path.dirname(os.path.dirname(os.path.abspath(__file__)))
 
-MUTATIONS = [
-    # (name, property, file, old, new)
-    ("c06-no-second-clamp", "C06", "decorator/standardiser.py",
-     "by_limits = _clamp(self.minimum, by_supply, self.maximum)", "by_limits = by_supply"),
-    ("c06-getter-strict", "C06", "decorator/standardiser.py",
-     ">= self.granularity:", "> self.granularity:"),
-    ("c06-floor-after-clamp", "C06", "decorator/standardiser.py",
-     "self.target.demand = self._clamp_demand(_floor(value, self.granularity))",
-     "self.target.demand = _floor(self._clamp_demand(value), self.granularity)"),
-    ("c06-revert-fix", "C06", "decorator/standardiser.py",
-     "return typed if typed == by_limits else by_limits", "return typed"),
-    ("c07-childcount", "C07", "composite/weighted.py",
-     "pool.demand = value * getattr(pool, self._weight) / self._total_weight",
-     "pool.demand = value * getattr(pool, self._weight) / (self._total_weight or child_count)"),
-    ("c07-fallback-swapped", "C07", "composite/weighted.py",
-     "return 0.0 if self.supply > 0 else 1.0", "return 0.0 if self.supply >= 0 else 1.0"),
-    ("c07-uniform-mean", "C07", "composite/uniform.py",
-     "return sum(child.allocation for child in self.children) / len(self.children)",
-     "return sum(child.allocation for child in self.children) / max(len(self.children), 2)"),
-    ("c08-linear-le", "C08", "controller/linear.py",
-     "if self.target.utilisation < self.low_utilisation:", "if self.target.utilisation <= self.low_utilisation:"),
-    ("c08-getrule-lt", "C08", "controller/stepwise.py",
-     "if low <= supply < high:", "if low < supply <= high:"),
-    ("c08-switch-lt", "C08", "controller/switch.py",
-     "if demand <= self.target.demand:", "if demand < self.target.demand:"),
-    ("c08-relative-else", "C08", "controller/relative_supply.py",
-     "        else:\n            self.target.demand = self.target.supply\n", "        else:\n            pass\n"),
-    ("c09-linear-sleep-first", "C09", "controller/linear.py",
-     "            self.regulate(self.interval)\n            await trio.sleep(self.interval)",
-     "            await trio.sleep(self.interval)\n            self.regulate(self.interval)"),
-    ("c09-buffer-half-window", "C09", "decorator/buffer.py",
-     "await trio.sleep(self.window)", "await trio.sleep(self.window / 2)"),
-    ("c09-buffer-eager", "C09", "decorator/buffer.py",
-     "    demand = 0.0\n", "    demand = 0.0\n\n    def __setattr__(self, k, v):\n        object.__setattr__(self, k, v)\n        if k == 'demand' and 'window' in self.__dict__ and v == 0:\n            self.target.demand = v\n"),
-    ("c09-switch-revert", "C09", "controller/switch.py",
-     "self.regulate(self.interval)", "self.regulate_demand(self.interval)"),
-    ("c09-factory-double", "C09", "composite/factory.py",
-     "            else:\n                self._grow(target=demand)",
-     "            else:\n                self._grow(target=demand)\n                self._reap_children()\n                self._shrink(target=demand)"),
-    ("c15-shrink-lt", "C15", "composite/factory.py",
-     "if child.demand <= excess_demand:", "if child.demand < excess_demand:"),
-    ("c15-grow-ge", "C15", "composite/factory.py",
-     "while missing_demand > 0:", "while missing_demand >= 0:"),
-    ("c15-no-reap-after-grow", "C15", "composite/factory.py",
-     "            missing_demand -= new_child.demand\n        self._reap_children()",
-     "            missing_demand -= new_child.demand"),
-    ("c15-release-keeps-demand", "C15", "composite/factory.py",
-     "        child.demand = 0\n        self._hatchery.discard(child)", "        self._hatchery.discard(child)"),
-    ("c15-util-all-children", "C15", "composite/factory.py",
-     "    def utilisation(self):\n        active_children = [child for child in self.children if child.supply > 0]",
-     "    def utilisation(self):\n        active_children = [child for child in self.children if child.supply >= 0]"),
-    ("c15-grow-counts-hatchery-only", "C15", "composite/factory.py",
-     "missing_demand = target - sum(child.demand for child in self.children)",
-     "missing_demand = target - sum(child.demand for child in self._hatchery if child.supply > 0)"),
-    ("c14-unknown-after-digest", "C14", "daemon/config/mapping.py",
-     "    unmatched = config_data.keys() - {plugin.section for plugin in plugins}\n    if unmatched:\n        raise ConfigurationError(\n            where=\"root\", what=\"unknown config sections %s\" % \", \".join(unmatched)\n        )\n    content = {}",
-     "    unmatched = config_data.keys() - {plugin.section for plugin in plugins}\n    content = {}"),
-    ("c14-before-as-after", "C14", "daemon/core/config.py",
-     "                dependencies[before].add(plugin.section)",
-     "                dependencies[plugin.section].add(before)"),
-    ("c14-required-ignored-when-decorated", "C14", "daemon/config/mapping.py",
-     "            if plugin.required:", "            if plugin.required and not plugin.before:"),
-    ("c14-falsy-result-dropped", "C14", "daemon/config/mapping.py",
-     "            if plugin_content is not None:", "            if plugin_content:"),
-    ("c16-logger-after-write", "C16", "decorator/logger.py",
-     "        self.target.demand = value\n\n    @property\n    def name",
-     "\n    @property\n    def name"),
-    ("c16-logger-logs-new-demand", "C16", "decorator/logger.py",
-     '"demand": self.target.demand,', '"demand": value,'),
-    ("c16-proxy-alloc-util", "C16", "interfaces/_proxy.py",
-     "        return self.target.allocation", "        return self.target.utilisation"),
-    ("c16-logger-skip-equal", "C16", "decorator/logger.py",
-     "        self._logger.log(\n            self.level,", "        if value != self.target.demand: self._logger.log(\n            self.level,"),
-    ("c19-list-forward", "C19", "daemon/config/mapping.py",
-     "                            for index, item in reversed(list(enumerate(structure)))",
-     "                            for index, item in reversed(list(reversed(list(enumerate(structure)))))"),
-    ("c19-where-parent", "C19", "daemon/config/mapping.py",
-     "            raise ConfigurationError(where=where, what=err) from err",
-     "            raise ConfigurationError(where=where.rpartition('.')[0], what=err) from err"),
-    ("c19-args-as-kw", "C19", "daemon/config/mapping.py",
-     '        args = mapping.pop("__args__", [])', '        args = mapping.get("__args__", [])'),
-    ("c19-where-overwritten", "C19", "daemon/config/mapping.py",
-     "            if err.where is None:\n                raise ConfigurationError(what=err.what, where=where) from err\n            raise",
-     "            raise ConfigurationError(what=err.what, where=where) from err"),
-    ("c04-construct-args-order", "C04", "interfaces/_partial.py",
-     "        return self.ctor(*args, *self.args, **kwargs, **self.kwargs)",
-     "        return self.ctor(*args, *reversed(self.args), **kwargs, **self.kwargs)"),
-    ("c04-bind-drops-middle", "C04", "interfaces/_partial.py",
-     "            for owner in reversed(self.targets[:-1]):", "            for owner in reversed(self.targets[1:-1]):"),
-    ("c04-curry-kw-override", "C04", "interfaces/_partial.py",
-     "            self.ctor, *self.args, *args, __leaf__=self.leaf, **self.kwargs, **kwargs",
-     "            self.ctor, *self.args, *args, __leaf__=self.leaf, **{**self.kwargs, **kwargs}"),
-    ("c04-revert-fix", "C04", "daemon/runners/service.py",
-     "        __new_service__.__signature__ = inspect.signature(\n            raw_cls.__init__ if __new__ is object.__new__ else __new__\n        )\n",
-     ""),
-    ("c04-leaf-curry-loses-leaf", "C04", "interfaces/_partial.py",
-     "            self.ctor, *self.args, *args, __leaf__=self.leaf,", "            self.ctor, *self.args, *args, __leaf__=self.leaf and not args,"),
-]
+from .mutations import MUTATIONS
 
 
 def main(argv):
